@@ -18,7 +18,8 @@ def sh(cmd, **kw):
 
 def main():
     prop, x = sys.argv[1], sys.argv[2]
-    src = "/tmp/seed_out_%s" % prop
+    chk_prop = os.environ.get("CHECK_WITH", prop)   # a change may be the business of a neighbouring property's check
+    src = os.environ.get("SEED_OUT_PREFIX", "/tmp/seed_out_") + prop
     patch, demo, meta = (os.path.join(src, "%s%s" % (x, s)) for s in (".diff", "_demo.py", "_meta.json"))
     wt = tempfile.mkdtemp(prefix="seedimp_")
     os.rmdir(wt)
@@ -29,7 +30,7 @@ def main():
         assert sh("git -C %s apply %s" % (wt, patch)).returncode == 0, "patch does not apply"
         tests = sh("%s /venv/bin/python -m pytest -q -p no:cacheprovider --timeout=900 --continue-on-collection-errors | tail -1" % env).stdout.strip()
         d1 = sh("%s /venv/bin/python -W ignore %s" % (env, demo)).returncode
-        chk = sh("cd %s && EVO_REPO=%s ./check %s --tier quick" % (VERIF, wt, prop))
+        chk = sh("cd %s && EVO_REPO=%s ./check %s --tier quick" % (VERIF, wt, chk_prop))
         lines = [l for l in chk.stdout.split("\n") if l.startswith(("VIOLATION", "OK ", "KNOWN", "HARNESS"))]
         replay_detail = None
         m = re.search(r"replay=(\S+)", "\n".join(lines))
@@ -51,8 +52,8 @@ def main():
                                     "accepted": ok,
                                     "commands": ["git worktree add <wt> HEAD; git -C <wt> apply patch.diff",
                                                  "pytest (BASELINE.json cmd) in <wt>", "python demo.py with PYTHONPATH=<wt>",
-                                                 "EVO_REPO=<wt> ./check %s --tier quick" % prop]},
-               "check_result": {"exit": chk.returncode, "lines": lines[:4], "first_replay_detail": replay_detail}})
+                                                 "EVO_REPO=<wt> ./check %s --tier quick" % chk_prop]},
+               "check_result": {"check": chk_prop, "exit": chk.returncode, "lines": lines[:4], "first_replay_detail": replay_detail}})
     json.dump(m0, open(os.path.join(out, "meta.json"), "w"), indent=1)
     print(prop, x, "accepted" if ok else "REJECTED", "| check exit", chk.returncode, "|", (lines[0] if lines else "")[:120])
 
